@@ -120,7 +120,14 @@ def solve_scipy(
     obj_fn = cache["obj_fn"]
     grad_fn = cache["grad_fn"]
     scipy_constraints = cache["scipy_constraints"]
-    bounds = cache["bounds"]
+
+    # Bounds are plain attributes that may be edited between solves, so they
+    # are read from the variables on every solve rather than from the cache.
+    bounds = []
+    for v in variables:
+        lb = v.lb if v.lb is not None else -np.inf
+        ub = v.ub if v.ub is not None else np.inf
+        bounds.append((lb, ub))
 
     def objective(x: np.ndarray) -> float:
         return float(obj_fn(x))
@@ -354,14 +361,6 @@ def _build_solver_cache(problem: Problem, variables: list) -> dict[str, Any]:
 
     cache["obj_fn"] = compile_expression(obj_expr, variables)
     cache["grad_fn"] = compile_jacobian([obj_expr], variables)
-
-    # Build bounds
-    bounds = []
-    for v in variables:
-        lb = v.lb if v.lb is not None else -np.inf
-        ub = v.ub if v.ub is not None else np.inf
-        bounds.append((lb, ub))
-    cache["bounds"] = bounds
 
     # Build constraints for SciPy
     scipy_constraints = []
